@@ -787,6 +787,17 @@ NextPin:
 			return fmt.Errorf("Error closing rowsPoints: %v", err)
 		}
 
+		// look for existing child edges, their hashes are part of the hash as well
+		children, err := sdb.edges(tx, "SELECT * FROM edges WHERE up=?", nodeID)
+		if err != nil {
+			rollback()
+			return err
+		}
+
+		for _, c := range children {
+			hashUpdate ^= c.Hash
+		}
+
 		_, err = tx.Exec(`INSERT INTO edges(id, up, down, hash, type) VALUES (?, ?, ?, ?, ?)`,
 			edge.ID, edge.Up, edge.Down, 0, edge.Type)
 
@@ -819,7 +830,9 @@ NextPin:
 		}
 	}
 
-	err = sdb.updateHash(tx, nodeID, hashUpdate)
+	// edge points and the initial hash of a new edge belong to this edge only,
+	// not to the other edges that point at the same node
+	err = sdb.updateEdgeHash(tx, edge, hashUpdate)
 	if err != nil {
 		rollback()
 		return fmt.Errorf("Error updating upstream hash: %v", err)
@@ -872,15 +885,36 @@ func checkPointValues(points data.Points) error {
 	return nil
 }
 
+// updateHash applies hashUpdate (a change in the points of node id) to all edges
+// that point at the node and to all edges upstream of them.
 func (sdb *DbSqlite) updateHash(tx *sql.Tx, id string, hashUpdate uint32) error {
-	// key in edgeCache is up-down
+	// key in cache is edge ID
 	cache := make(map[string]uint32)
 	err := sdb.updateHashHelper(tx, id, hashUpdate, cache)
 	if err != nil {
 		return err
 	}
 
-	// write update hash values back to edges
+	return sdb.writeHashes(tx, cache)
+}
+
+// updateEdgeHash applies hashUpdate (a change in the points of edge, or the
+// initial hash of a new edge) to that edge and to all edges upstream of it.
+func (sdb *DbSqlite) updateEdgeHash(tx *sql.Tx, edge data.Edge, hashUpdate uint32) error {
+	cache := map[string]uint32{edge.ID: edge.Hash ^ hashUpdate}
+
+	if edge.Up != "none" {
+		err := sdb.updateHashHelper(tx, edge.Up, hashUpdate, cache)
+		if err != nil {
+			return err
+		}
+	}
+
+	return sdb.writeHashes(tx, cache)
+}
+
+// writeHashes writes updated hash values (by edge ID) back to edges
+func (sdb *DbSqlite) writeHashes(tx *sql.Tx, cache map[string]uint32) error {
 	stmt, err := tx.Prepare(`UPDATE edges SET hash = ? WHERE id = ?`)
 
 	if err != nil {
